@@ -900,3 +900,67 @@ contract(
          'keeping its value (compaction reads every value before it is overwritten); out of range '
          '-> IndexError and nothing changes; the store stays canonical (slice keys: bounded layer)',
 )
+
+
+# --- Buildable.__getattr__ ---------------------------------------------------------------------------
+uses_default_factory = z3.Function('uses_default_factory', Val, I, B)
+has_attribute = z3.Function('has_attribute', Val, I, B)
+from pyvc.calls import is_dataclass_val     # noqa: E402
+
+contract('config._field_uses_default_factory#getattr', F, '_field_uses_default_factory', abstract=True,
+         params=['dataclass_type', 'field_name'],
+         ensures=lambda c: c.result == VBool(uses_default_factory(c['dataclass_type'], sval(c['field_name']))),
+         allocates=False, note='assumed: pure predicate over dataclasses.fields()')
+contract('builtin.hasattr', F, 'hasattr', abstract=True, params=['obj', 'name'],
+         ensures=lambda c: c.result == VBool(has_attribute(c['obj'], sval(c['name']))), allocates=False,
+         note='assumed: hasattr is a pure predicate (the callable\'s attributes have no side effects)')
+
+
+def _ga_terms(c):
+  h = c.old
+  sv = c['self']
+  g = bsig(h, sv)
+  A = ref(bfields(h, sv)[1])
+  i = sig_idx(g, sval(c['name']))
+  return h, sv, g, A, i
+
+
+def _ga_positional(c):
+  h, sv, g, A, i = _ga_terms(c)
+  return z3.And(i >= 0, z3.Or(sig_kind(g, i) == PO, sig_kind(g, i) == VP))
+
+
+def _ga_factory(c):
+  h, sv, g, A, i = _ga_terms(c)
+  fn = h.fld(ref(sv), '__fn_or_cls__')
+  return z3.And(z3.Not(_ga_positional(c)), z3.Not(h.has(A, c['name'])),
+                is_dataclass_val(fn), uses_default_factory(fn, sval(c['name'])))
+
+
+def _ga_noattr(c):
+  h, sv, g, A, i = _ga_terms(c)
+  return z3.Or(_ga_positional(c),
+               z3.And(z3.Not(h.has(A, c['name'])), z3.Not(_ga_factory(c)),
+                      z3.Not(z3.And(i >= 0, sig_hasdef(g, i)))))
+
+
+def _ga_post(c):
+  h, sv, g, A, i = _ga_terms(c)
+  return c.result == z3.If(h.has(A, c['name']), h.dget(A, c['name']), sig_dflt(g, i))
+
+
+contract(
+    'config.Buildable.__getattr__', F, 'Buildable.__getattr__',
+    requires=lambda c: z3.And(BInv(c.old, c['self']), is_VStr(c['name']),
+                              # stored values are not the private unset sentinel
+                              FA([z3.Const('ga_k', Val)], z3.Implies(
+                                  c.old.has(ref(bfields(c.old, c['self'])[1]), z3.Const('ga_k', Val)),
+                                  c.old.dget(ref(bfields(c.old, c['self'])[1]), z3.Const('ga_k', Val)) != UNSET_SENTINEL))),
+    ensures=_ga_post,
+    raises={'AttributeError': _ga_noattr, 'ValueError': _ga_factory},
+    calls={'_field_uses_default_factory': 'config._field_uses_default_factory#getattr',
+           'hasattr': 'builtin.hasattr'},
+    allocates=False, props=('C03', 'C17'),
+    note='positional-only / variadic name -> AttributeError; else the stored value; else ValueError for a '
+         'dataclass default_factory field; else the default; else AttributeError; nothing is modified',
+)
